@@ -120,6 +120,8 @@ type sim struct {
 	mainGID   uint64
 	holds     int
 	bound     time.Duration
+	roundEnds []int64 // event sequence numbers of round ends (metrics callback, under mu)
+	wmZero    int
 	nextPay   uint64
 	seq       int64 // event sequence (under mu)
 	failProb  int   // percent
@@ -581,9 +583,17 @@ func (m *metrics) ReconciliationDuration(moduleID cell.FullModuleID, name, opera
 		s.userWrite("after-"+operation+"-before-status-commit", s.opRng)
 	}
 }
-func (m *metrics) ReconciliationErrors(cell.FullModuleID, string, int, int) {}
-func (m *metrics) PruneError(cell.FullModuleID, string, error)              {}
-func (m *metrics) PruneDuration(cell.FullModuleID, string, time.Duration)   {}
+
+// ReconciliationErrors is called once at the end of every round, just before the round's progress (revision, low watermark) is
+// published: a round boundary in the event log.
+func (m *metrics) ReconciliationErrors(cell.FullModuleID, string, int, int) {
+	s := m.s
+	s.mu.Lock()
+	s.roundEnds = append(s.roundEnds, s.nextSeq())
+	s.mu.Unlock()
+}
+func (m *metrics) PruneError(cell.FullModuleID, string, error)            {}
+func (m *metrics) PruneDuration(cell.FullModuleID, string, time.Duration) {}
 
 // ---- checks ----
 
@@ -757,6 +767,51 @@ func (s *sim) convergenceCheck(what string) {
 	}
 }
 
+// checkZeroWatermark: a low watermark of zero says that no failed object awaits a retry. The value WaitUntilReconciled hands out
+// was published at the end of the last or (if the call returned between a round's end and its publication) the second to last
+// round; an object whose latest attempt failed before the end of the round before those two, and which nobody has touched since,
+// was in the retry queue at the end of both, so zero is wrong. (Only judged without further real reconcilers and refreshing, whose
+// writes are not in the event log.)
+func (s *sim) checkZeroWatermark(wm uint64) {
+	if wm != 0 || s.cfg.Extra > 0 || s.cfg.Refresh {
+		return
+	}
+	s.mu.Lock()
+	defer s.mu.Unlock()
+	s.wmZero++
+	if len(s.roundEnds) < 3 {
+		return
+	}
+	limit := s.roundEnds[len(s.roundEnds)-3]
+	last := map[uint64]Attempt{}
+	for _, a := range s.attempts {
+		last[a.ID] = a
+	}
+	for id, a := range last {
+		if a.OK || a.Seq > limit {
+			continue
+		}
+		cur, live := s.model[id]
+		if !(a.Op == "update" && live && cur == a.Payload || a.Op == "delete" && !live) {
+			continue // changed since: the retry was cleared
+		}
+		touched := false
+		for _, w := range s.writes {
+			touched = touched || w.ID == id && w.Seq > a.Seq
+		}
+		for _, w := range s.touches {
+			touched = touched || w.ID == id && w.Seq > a.Seq
+		}
+		if touched {
+			continue
+		}
+		s.mu.Unlock()
+		s.violate("pacing", "low-watermark-zero", "WaitUntilReconciled reported low watermark 0 although the %s of id=%d (revision %d) failed %d rounds ago and has neither been retried nor changed since", a.Op, id, a.Rev, 3)
+		s.mu.Lock()
+		return
+	}
+}
+
 // pacingChecks evaluates the attempt log.
 func (s *sim) pacingChecks() {
 	s.mu.Lock()
@@ -773,6 +828,18 @@ func (s *sim) pacingChecks() {
 		first = max
 	}
 	for id, as := range byKey {
+		// a failed operation is retried within the maximum backoff (plus a round): the last attempt of a key may only be a
+		// failure if the object was changed afterwards (the retry is cleared) or the failure is recent
+		if l := as[len(as)-1]; s.cfg.Pacing && !l.OK {
+			changed := false
+			for _, w := range events {
+				changed = changed || w.ID == id && w.Seq > l.Seq
+			}
+			if age := s.now() - l.End; !changed && age > max+time.Duration(2+s.cfg.LimiterMS)*time.Millisecond+time.Second {
+				s.violate("pacing", "retry-too-late", "id=%d: the %s that failed %.3fms ago was never retried, maximum backoff is %v", id, l.Op, float64(age)/1e6, max)
+				return
+			}
+		}
 		var prevWait time.Duration
 		streak := 0
 		for i := 1; i < len(as); i++ {
@@ -957,10 +1024,11 @@ func Run(t *testing.T, r *vkit.Run, idx int, cfg Config) {
 					defer waiters.Done()
 					ctx, cancel := context.WithTimeout(context.Background(), 30*time.Second)
 					defer cancel()
-					got, _, err := s.rec.WaitUntilReconciled(ctx, rev)
+					got, wm, err := s.rec.WaitUntilReconciled(ctx, rev)
 					if err != nil {
 						return
 					}
+					s.checkZeroWatermark(wm)
 					// every change up to rev that is still the current version of its key must have been attempted
 					s.mu.Lock()
 					defer s.mu.Unlock()
@@ -1053,6 +1121,7 @@ func Run(t *testing.T, r *vkit.Run, idx int, cfg Config) {
 		}
 		r.Max("reconcilers_on_one_table", int64(2+len(s.extra)))
 		r.Count("user_transactions_holding_the_lock", int64(s.holds))
+		r.Count("zero_watermarks_judged", int64(s.wmZero))
 		r.Count("operation_attempts", int64(len(s.attempts)))
 		r.Count("failed_attempts", int64(nfail))
 		r.Count("user_writes", int64(len(s.writes)))
